@@ -53,3 +53,15 @@ package conf
 //@   loop 0: invariant len(arr) == idx && walked == idx
 //@   call toLowerCaseInterface#*: assert arg_info == info
 //@   call toLowerCaseKeyMap#*: assert arg_info == info
+
+// the field table is built for the fully dereferenced target type (any number of pointer levels), and keys are canonicalised
+// by full Unicode lower-casing - the same function for tags and for document keys
+//@ func buildFieldsInfo
+//@   property C17
+//@   call Deref#0: assert arg_t == tp
+//@   ghost at after Deref#0: dt = ret
+//@   call buildStructFieldsInfo#0: assert arg_tp == dt
+//@ func toLowerCase
+//@   property C17
+//@   ensures result == strings.ToLower(s)
+//@   modifies nothing
